@@ -317,7 +317,11 @@ func (w *c20Worker) run(b *c20Beh, call c20Call) {
 			c := pc.Conn1()
 			c.Write([]byte(c20RawRequest(b, call.hdr))) //nolint:errcheck
 			var rs Response
-			rs.Read(bufio.NewReader(c)) //nolint:errcheck
+			rs.SkipBody = b.Init.Method == "HEAD"
+			c.SetReadDeadline(time.Now().Add(120 * time.Second)) //nolint:errcheck
+			if rerr := rs.Read(bufio.NewReader(c)); rerr != nil && ran {
+				vfInfra(fmt.Sprintf("C20: no response from the forwarding server for %s: %v", b.chainSig(), rerr))
+			}
 			c.Close()
 			<-served
 			w.fwd = nil
